@@ -97,16 +97,19 @@ theorem reference_sees_whole_table (st : Static) (defs : Defs) (ctx ctx' : RCtx)
   unfold evalVariable
   by_cases h0 : level = 0
   · subst h0
-    cases hp : path.head? with
-    | none => simp [hsym, hguess]
-    | some n =>
-      have hn : ¬ (n = "$" ∨ n = "pc") := by
-        intro hc; apply hnotpc; refine ⟨rfl, ?_⟩; rw [hp]; rcases hc with rfl | rfl <;> simp
-      have hn' : (n == "$" || n == "pc") = false := by
-        cases h1 : (n == "$" || n == "pc") with
-        | false => rfl
-        | true => exfalso; apply hn; simpa using h1
-      simp only [beq_self_eq_true, if_true, hn', Bool.false_eq_true, if_false, hsym, hguess]
+    cases path with
+    | nil => simp [hsym, hguess]
+    | cons n rest =>
+      cases rest with
+      | cons m rest' => simp [hsym, hguess]
+      | nil =>
+        have hn : ¬ (n = "$" ∨ n = "pc") := by
+          intro hc; apply hnotpc; refine ⟨rfl, ?_⟩; rcases hc with rfl | rfl <;> simp
+        have hn' : (n == "$" || n == "pc") = false := by
+          cases h1 : (n == "$" || n == "pc") with
+          | false => rfl
+          | true => exfalso; apply hn; simpa using h1
+        simp only [beq_self_eq_true, if_true, hn', Bool.false_eq_true, if_false, hsym, hguess]
   · have : (level == 0) = false := by simpa using h0
     simp only [this, Bool.false_eq_true, if_false, hsym, hguess]
 
